@@ -72,6 +72,24 @@ Theorem C15_service_complete_with_fix :
 Proof. exact consulted_service_reachable_fixed. Qed.
 Print Assumptions C15_service_complete_with_fix.
 
+(* Any number of served resources: whatever else the Configuration serves (other kinds with the same
+   namespace and name, other hosts), each resource that consults the object is in the set the reverse
+   path returns; and that set is the union over the parts of the served list. *)
+Theorem C15_served_set_partial :
+  forall e cl served r p k ky ns name,
+    In r served ->
+    cluster_wf cl -> resource_wf r -> valid_name ns -> valid_name name ->
+    In (p, (k, ky)) (consulted e cl r) -> refuted_pos e p k = false -> ky = key ns name ->
+    In r (reached_set e cl k ns name served).
+Proof. exact served_set_reachable_partial. Qed.
+Print Assumptions C15_served_set_partial.
+
+Theorem C15_served_set_is_union :
+  forall e cl k ns name a b,
+    reached_set e cl k ns name (a ++ b) = reached_set e cl k ns name a ++ reached_set e cl k ns name b.
+Proof. exact reached_set_app. Qed.
+Print Assumptions C15_served_set_is_union.
+
 (* Add, update and delete events of every dependency kind run a sync function that regenerates the
    resource -- except the deletion of an EndpointSlice, and an update that the handler's filter
    (hasServiceChanges for a Service, a spec comparison for the custom resources) does not let through. *)
